@@ -10,7 +10,12 @@ from lib import solvercheck as SC, solverlib as L
 import translate_solver as ts
 
 THEOREMS = ["Claripy.Props.C14.C14_records_isolated", "Claripy.Props.C14.C14_batch_eval_balanced",
-            "Claripy.Solver.step_other_frontends"]
+            "Claripy.Solver.step_other_frontends",
+            # SolverCacheless: whole histories over trees of branched solvers sharing Z3 objects
+            "Claripy.Props.C14.C14_cacheless_tree_isolated", "Claripy.Props.C14.C14_shared_objects_finalized",
+            "Claripy.Props.C14.C14_step_keeps_discipline", "Claripy.Props.C14.C14_query_leaves_foreign_frames",
+            "Claripy.Solver.tinv_step", "Claripy.Solver.tinv_append", "Claripy.Solver.cl_step_branch",
+            "Claripy.Solver.qstep_after_query", "Claripy.Solver.QStep.trans"]
 MODELLED = ["Solver", "SolverCacheless", "SolverStrings"]
 OTHERS = ["SolverComposite", "SolverHybrid", "SolverReplacement"]
 WEIGHTS = {"add": 24, "satisfiable": 8, "eval": 14, "batch_eval": 4, "min": 9, "max": 9, "solution": 6, "is_true": 1,
